@@ -224,6 +224,8 @@ pub struct Stats {
     pub suppressed_events: u64,
     pub synced_checked: u64,
     pub relinks: u64,
+    /// New connections handed to the downlink while it had not terminated.
+    pub reconnections: u64,
     pub frames_after_terminate: u64,
     pub locals_while_linked: u64,
     /// (counter name, occurrences): shapes of take/drop callbacks and the like.
@@ -356,7 +358,22 @@ fn walk(inp: &CheckInput<'_>, stats: &mut Stats, include_local: bool) -> Option<
             Step::N(n) => vec![Op::N(n)],
             Step::Local(op) => vec![Op::L(op)],
             Step::SplitLocal(n, op) => vec![Op::L(op), Op::N(n)],
-            Step::Barrier => vec![],
+            // Neither the loss of the local handle nor the loss of the consumer of the output is a
+            // notification: the fold and the demanded callbacks are unaffected.
+            Step::Barrier | Step::DropHandle | Step::OutputFault => vec![],
+            Step::Reconnected => {
+                // The downlink reads from a new connection: whatever link it had is gone, although
+                // no notification said so. "Received since it linked" now refers to the next
+                // `linked`, so the fold restarts and events of the new link are subject to
+                // `events_when_not_synced` again until its own `synced`. No callback is demanded
+                // here. A downlink that terminated stays terminated.
+                if !terminated {
+                    link = Link::Unlinked;
+                    fold.clear();
+                    stats.reconnections += 1;
+                }
+                vec![]
+            }
         };
         for op in ops {
             let note = match op {
@@ -571,6 +588,8 @@ fn walk(inp: &CheckInput<'_>, stats: &mut Stats, include_local: bool) -> Option<
 pub fn well_behaved(steps: &[Step]) -> bool {
     steps.iter().all(|s| match s {
         Step::N(n) | Step::SplitLocal(n, _) => !n.is_take_drop(),
+        // A new connection is a fault of the hosted environment, not something a link produces.
+        Step::Reconnected => false,
         _ => true,
     })
 }
